@@ -12,7 +12,9 @@ for d in sorted(glob.glob(os.path.join(root, 'seeded', '*-m*'))):
         if r.get('violation') and r.get('signatures'):
             sig = re.sub(r'^signature: ', '', r['signatures'][0]); sig = re.sub(r' \(\d+ run\(s\)\)$', '', sig); by = chk
             break
-    res = 'superseded' if m.get('superseded') else ('caught' if m.get('caught') else 'MISSED')
+    res = 'superseded' if m.get('superseded') else ('caught' if m.get('caught') else ('outside the quantifier' if m.get('outside') else 'MISSED'))
+    if m.get('outside') and not m.get('caught'):
+        sig = m['outside']
     needs = m.get('needs', '').replace('|', '/')
     if len(needs) > 110: needs = needs[:110]
     rows.append(f"| {name} | {needs} | {res} | {sig} |")
